@@ -3,21 +3,32 @@ import glob, os
 
 
 def run(c):
-    c.rule = ("random expectation scripts (0-5 expectations x result/checker kinds) x 0-6 messages x partitioner outcomes x "
-              "Return.* flags x partition-count configs, async and sync mocks; a case is non-trivial when it has at least one "
-              "message and one expectation; distinct = distinct (script, observation) JSON")
-    c.trust("correspondence harness go/harness/cmd/c20corr (scripted partitioner/checkers, error-id encoding, report classification)")
-    c.trust("Coq 8.16.1 kernel + vm_compute (evaluation of the model on the harness cases)")
+    c.rule = ("three families of generated scripts, each executed on the real mock and re-evaluated on the Coq model: "
+              "(async) 0-6 expectations (result x checker kinds x Expect* API variant) x 0-7 messages x partitioner outcomes x Return.* flags x "
+              "partition-count configs x 1-2 senders (steered interleavings, a few free-running); "
+              "(sync) 0-5 calls mixing SendMessage and SendMessages batches of 0-4 messages against 0-9 expectations, then Close; "
+              "(consumer) 5-60 actions on 1-4 registered partitions (+1 unregistered): ExpectConsumePartition / Yield* / drain flags / "
+              "ConsumePartition with right, wrong and Any offsets / non-blocking receives / HighWaterMark(s) / Close, AsyncClose, Consumer.Close "
+              "in every order / metadata calls. Non-trivial = at least one message and one expectation (producers), at least one "
+              "delivery or reporter call (consumer); distinct = distinct (script, observation) JSON")
+    c.trust("correspondence harness go/harness/cmd/c20corr (scripted partitioner/checkers, error-id encoding, report classification, "
+            "canonical order of map-ordered output: Topics(), HighWaterMarks(), reporter calls inside Consumer.Close)")
+    c.trust("Coq 8.16.1 kernel + vm_compute (evaluation of the models on the harness cases)")
     c.assume("partitioner and checker are user code: modelled as scripted oracles carried by the message / expectation")
-    c.assume("global order between Successes(), Errors() and reporter calls is not observable: compared per stream")
+    c.assume("async mock: global order between Successes(), Errors() and reporter calls is not observable: compared per stream; "
+             "with two senders the theorems speak about the arrival order on the input channel (steered by token passing, or read "
+             "off the partitioner call log when both senders run freely)")
+    c.assume("mock consumer: driven from one goroutine with non-blocking receives and fewer yields per partition than "
+             "ChannelBufferSize (a yield beyond the buffer blocks until read: liveness, not modelled); messages drained by Close are "
+             "not observable and not compared")
     if not c.coq_make():
         return
     c.coq_properties()
     b = c.go_build("c20corr")
     if not b:
         return
-    n = 400 if c.tier == "quick" else 6000
-    rc, out = c.run([b, "-out", c.build, "-seed", str(c.seed), "-n", str(n)], timeout=1200)
+    n = 500 if c.tier == "quick" else 20000
+    rc, out = c.run([b, "-out", c.build, "-seed", str(c.seed), "-n", str(n)], timeout=150 if c.tier == "quick" else 2400)
     if rc != 0:
         c.break_("corr", "c20corr harness run failed", out)
         return
